@@ -27,7 +27,7 @@ RULE = (
     'configuration units and rounded to the dtype; L1 and L2 are float64 (as the beamline graph produces them) or float32 '
     'operands, independently;  arrival times are (a) the simulated neutron '
     't=L1/v(Ei)+L2/v(Ef) rounded to the tof dtype, (b) the code\'s own fl(t0) and its +-1,2,3,17 neighbours in the '
-    'tof dtype, (c) log-uniform 1e-7..1e3 s, (d) zero and negative. A case is distinct by (configuration, operand '
+    'tof dtype, (c) log-uniform 1e-7..1e3 s, (d) zero and negative; (e) array-shaped operands: 1-d time axes ascending / descending / shuffled / with repeated values, pixel x tof with per-pixel (or per-tof) L1, L2, energy and 2-d tof, placed so that none / some / all elements and pixels are unphysical, with exact ties t = fl(t0) inside the array, also through convert(); every element is judged by the scalar oracle for its own operands and compared with the model applied element-wise; result dims = union of the operand dims. A case is distinct by (configuration, operand '
     'bit patterns). Values are compared under the condition-aware tolerance eps*(max(E_fixed,E_var)+E_var*t0/|t-t0|) '
     'where, in the ORACLE, eps follows the RESULT dtype (1e-11 for a float64 result whatever the operand dtypes, 1e-5 for a float32 result) — except the dtype patterns in which the unchanged code is only single-precision accurate (energy float32 with a non-float32 tof, or a float32 length of the variable leg; key C05:mixed-precision:<kernel>, known), which get the 1e-5 budget; a float32 tof or fixed-leg length with float64 energy is held to 1e-11 and to a NaN-boundary band of 8 double-precision ulps; the model/implementation correspondence uses eps=1e-11 (all double) or 1e-5 (any single-precision operand among energy, tof, L1, L2); NaN-ness, finiteness, unit and dtype exactly. '
     'Conservation against Ei-Ef is demanded when both legs are comparable (t0/(t-t0) <= 100), with the rounding of '
@@ -599,6 +599,42 @@ def correspond(ctx):
                     ctx.count('within-tolerance')
                 else:
                     ctx.disagree(sample_of(cfg, c), bits(v), mo, 'value outside the condition-aware tolerance')
+    # array-shaped operands: the model is applied element-wise (scipp broadcasting), dims of the result = union
+    arrs, lines = [], []
+    for _ in range(ctx.n(400, 8000)):
+        cfg = random_cfg(rng, allow_int=True, ctx=ctx)
+        layout, order, position, ops, c1, c2 = gen_array_case(rng, cfg)
+        res = run_kernel_arrays(cfg, ops)
+        ctx.count(f'array:{layout}:{order}:{position}')
+        wit = array_witness(cfg, layout, order, position, ops)
+        if isinstance(res, str):
+            ctx.disagree(wit, res, 'ok', 'kernel raised on array-shaped operands')
+            continue
+        rdims, rsizes, vals, dtype, unit_ok = res
+        want = {}
+        for k in ('tof', 'L1', 'L2', 'E'):
+            for dname, n_ in zip(ops[k][0], ops[k][1].shape):
+                want[dname] = n_
+        exp_dtype = {'f64': 'float64', 'f32': 'float32'}[dtype4_model[f'c05.dtype4 {cfg.eD} {cfg.tD} {cfg.l1D} {cfg.l2D}']]
+        if rsizes != want or dtype != exp_dtype or not unit_ok:
+            ctx.disagree(wit, [rsizes, dtype, unit_ok], [want, exp_dtype, True], 'sizes (union of the operand dims) / dtype / unit of the result')
+            continue
+        for idx, c in array_elements(cfg, ops, c1, c2, rdims, rsizes):
+            arrs.append((cfg, wit, idx, c, float(vals[tuple(idx[d] for d in rdims)]) if rdims else float(vals)))
+            lines.append(model_line(cfg, c))
+    for (cfg, wit, idx, c, v), mo in zip(arrs, ctx.driver(lines)):
+        ctx.case(('array', cfg.key(), wit['layout'], wit['order'], tuple(sorted(idx.items())), bits(c['Ei']), bits(c['Ef']), bits(c['L1']),
+                  bits(c['L2']), bits(c['t'])), True)
+        if mo in ('none', 'nan'):
+            ctx.count('array-element:nan')
+            ok = math.isnan(v)
+        else:
+            mv = unbits(mo)
+            ctx.count('array-element:value')
+            ok = (not math.isnan(v)) and (v == mv or (math.isfinite(v) and math.isfinite(mv) and _close(cfg, c, v, mv)))
+        if not ok:
+            ctx.disagree(dict(wit, index=idx), bits(v) if not math.isnan(v) else 'nan', mo,
+                         'element of an array evaluation differs from the model applied to the element operands')
 
 
 # ---- oracle -----------------------------------------------------------------------------------
@@ -772,6 +808,206 @@ def _oracle_corpus(ctx):
                 _report(ctx, cfg, c, judge(cfg, c, float(vals[0]), dtype, unit_ok))
 
 
+# ---- array-shaped operands ---------------------------------------------------------------------
+
+ARRAY_LAYOUTS = ['tof-1d', 'tof-1d', 'tof-1d', 'pixel-x-tof', 'pixel-x-tof', 'pixel-x-tof', 'tof-2d', 'per-tof-operand']
+ARRAY_ORDERS = ['ascending', 'descending', 'shuffled', 'repeated']
+ARRAY_POSITIONS = ['none-unphysical', 'some-unphysical', 'some-unphysical', 'all-unphysical', 'ties']
+
+
+def gen_array_case(rng, cfg: Cfg):
+    """Operands with dims: a 1-d time axis (ascending / descending / shuffled / with repeated values), or pixel x tof
+    with per-pixel L1 / L2 / energy (scalar, per pixel, per tof), the time axis placed so that none / some / all of
+    the elements (and pixels) are unphysical, with exact ties t = fl(t0) inside the array.
+    → (layout, order, position, ops) with ops = {name: (dims, numpy array)} for tof, L1, L2, E (the supplied energy)
+    and Eo (the other energy, only used to build neutrons)"""
+    layout, order, position = rng.choice(ARRAY_LAYOUTS), rng.choice(ARRAY_ORDERS), rng.choice(ARRAY_POSITIONS)
+    npix = 1 if layout == 'tof-1d' else rng.randint(2, 4)
+    nt = rng.randint(2, 7)
+    base = gen_cases(rng, cfg, npix, kinds=('neutron',), comparable=True)
+    direct = cfg.geom == 'direct'
+    # which operands vary per pixel (the others take the value of pixel 0)
+    per_pixel = {'L1': layout != 'tof-1d' and rng.random() < 0.5, 'L2': layout != 'tof-1d' and rng.random() < 0.8,
+                 'E': layout != 'tof-1d' and rng.random() < (0.3 if direct else 0.8)}
+    if layout in ('pixel-x-tof', 'tof-2d') and not any(per_pixel.values()):
+        per_pixel['L2'] = True
+    for c in base:
+        for name, key in (('L1', 'L1'), ('L2', 'L2'), ('E', 'Ei' if direct else 'Ef')):
+            if not per_pixel[name]:
+                c[key] = base[0][key]
+    c1, c2 = base[0]['c1'], base[0]['c2']
+    t0s = [float(np_t0(cfg, c1 if direct else c2, c['Ei'] if direct else c['Ef'], float(c['L1'] if direct else c['L2']))) for c in base]
+    lo, hi = min(t0s), max(t0s)
+
+    def axis():
+        """nt arrival times in the tof dtype"""
+        ts = []
+        for _ in range(nt):
+            if position == 'none-unphysical':
+                v = hi * (1 + lu(rng, 1e-3, 10))
+            elif position == 'all-unphysical':
+                v = lo * rng.uniform(0.05, 0.999)
+            elif position == 'ties':
+                v = rng.choice(t0s) if rng.random() < 0.6 else hi * (1 + lu(rng, 1e-3, 3))
+            else:
+                r = rng.random()
+                v = (lo * rng.uniform(0.3, 0.999) if r < 0.3 else rng.uniform(lo, hi) if (r < 0.6 and hi > lo)
+                     else hi * (1 + lu(rng, 1e-3, 10)))
+            t = cast(v, cfg.tD) if position != 'ties' or cfg.tD in INTS else NP[cfg.tD](v)
+            if position == 'ties' and rng.random() < 0.3:
+                t = neighbours(t, cfg.tD, rng.choice([-1, 1]))
+            ts.append(t)
+        if position == 'some-unphysical' and len(ts) >= 2:
+            # make sure both regions occur and (for the descending / shuffled orders) a physical element may come first
+            ts[0] = cast(hi * (1 + lu(rng, 1e-2, 3)), cfg.tD)
+            ts[1] = cast(lo * rng.uniform(0.3, 0.99), cfg.tD)
+        key = lambda t: float(t)  # noqa: E731
+        if order == 'ascending':
+            ts.sort(key=key)
+        elif order == 'descending':
+            ts.sort(key=key, reverse=True)
+        elif order == 'repeated':
+            ts.sort(key=key)
+            ts[-1] = ts[0] if rng.random() < 0.5 else ts[-2]
+        else:
+            rng.shuffle(ts)
+        return np.array(ts, dtype=NP[cfg.tD])
+
+    ops = {}
+    if layout == 'tof-2d':
+        ops['tof'] = (['pixel', 'tof'], np.stack([axis() for _ in range(npix)]))
+    else:
+        ops['tof'] = (['tof'], axis())
+
+    def operand(name, key, d):
+        if per_pixel[name]:
+            return (['pixel'], np.array([c[key] for c in base], dtype=NP[d]))
+        return ([], np.array(base[0][key], dtype=NP[d]))
+
+    ops['L1'] = operand('L1', 'L1', cfg.l1D)
+    ops['L2'] = operand('L2', 'L2', cfg.l2D)
+    ops['E'] = operand('E', 'Ei' if direct else 'Ef', cfg.eD)
+    if layout == 'per-tof-operand':
+        # an operand that varies along the time axis (e.g. a per-bin incident energy of a chopper scan)
+        which = rng.choice(['E', 'L2' if direct else 'L1'])
+        key = {'E': 'Ei' if direct else 'Ef', 'L1': 'L1', 'L2': 'L2'}[which]
+        d = {'E': cfg.eD, 'L1': cfg.l1D, 'L2': cfg.l2D}[which]
+        extra = gen_cases(rng, cfg, nt, kinds=('neutron',))
+        ops[which] = (['tof'], np.array([c[key] for c in extra], dtype=NP[d]))
+    ops['Eo'] = ([], np.array(base[0]['Ef' if direct else 'Ei'], dtype=NP[cfg.eD]))
+    return layout, order, position, ops, c1, c2
+
+
+def _op_var(dims, values, d, unit):
+    import scipp as sc
+
+    if not dims:
+        return sc.scalar(values[()], unit=unit, dtype=SC[d])
+    return sc.array(dims=dims, values=values, unit=unit, dtype=SC[d])
+
+
+def run_kernel_arrays(cfg: Cfg, ops, via_convert=False):
+    """real kernel (or scippneutron.convert) on array-shaped operands → (result dims, sizes, values, dtype, unit ok) | error"""
+    import scipp as sc
+    import scippneutron as scn
+    from scippneutron.conversion import tof as K
+
+    tof = _op_var(*ops['tof'], cfg.tD, cfg.ut)
+    L1 = _op_var(*ops['L1'], cfg.l1D, cfg.u1)
+    L2 = _op_var(*ops['L2'], cfg.l2D, cfg.u2)
+    E = _op_var(*ops['E'], cfg.eD, cfg.uE)
+    ename = 'incident_energy' if cfg.geom == 'direct' else 'final_energy'
+    try:
+        if via_convert:
+            dims = ['pixel', 'tof'] if any('pixel' in ops[k][0] for k in ('tof', 'L1', 'L2', 'E')) else ['tof']
+            sizes = {}
+            for k in ('tof', 'L1', 'L2', 'E'):
+                for dname, n in zip(ops[k][0], ops[k][1].shape):
+                    sizes[dname] = n
+            da = sc.DataArray(sc.ones(dims=dims, shape=[sizes[d] for d in dims]), coords={'tof': tof, 'L1': L1, 'L2': L2, ename: E})
+            r = scn.convert(da, origin='tof', target='energy_transfer', scatter=True).coords['energy_transfer']
+            r = r.rename_dims({d: 'tof' for d in r.dims if d == 'energy_transfer'})
+        elif cfg.geom == 'direct':
+            r = K.energy_transfer_direct_from_tof(tof=tof, L1=L1, L2=L2, incident_energy=E)
+        else:
+            r = K.energy_transfer_indirect_from_tof(tof=tof, L1=L1, L2=L2, final_energy=E)
+    except Exception as e:  # noqa: BLE001
+        return _err(e)
+    return list(r.dims), dict(r.sizes), np.asarray(r.values, dtype=np.float64), str(r.dtype), bool(r.unit == sc.Unit(cfg.uE))
+
+
+def array_elements(cfg: Cfg, ops, c1, c2, rdims, rsizes):
+    """one scalar case per element of the broadcast result: [(index dict, case dict)]"""
+    import itertools
+
+    direct = cfg.geom == 'direct'
+    out = []
+    for tup in itertools.product(*[range(rsizes[d]) for d in rdims]):
+        idx = dict(zip(rdims, tup))
+
+        def at(name):
+            dims, vals = ops[name]
+            return vals[tuple(idx[d] for d in dims)] if dims else vals[()]
+
+        e = at('E')
+        out.append((idx, dict(kind='array', Ei=e if direct else at('Eo'), Ef=at('Eo') if direct else e,
+                              L1=at('L1'), L2=at('L2'), t=at('tof'), c1=c1, c2=c2)))
+    return out
+
+
+def array_witness(cfg: Cfg, layout, order, position, ops, via_convert=False):
+    w = cfg.as_dict()
+    w.update(op='array', layout=layout, order=order, position=position, via_convert=via_convert,
+             ops={k: {'dims': v[0], 'shape': list(v[1].shape), 'values': [bits(x) for x in np.asarray(v[1], dtype=np.float64).ravel()]}
+                  for k, v in ops.items()})
+    return w
+
+
+def ops_from_witness(cfg: Cfg, w):
+    d_of = {'tof': cfg.tD, 'L1': cfg.l1D, 'L2': cfg.l2D, 'E': cfg.eD, 'Eo': cfg.eD}
+    return {k: (v['dims'], np.array([unbits(x) for x in v['values']], dtype=np.float64).reshape(v['shape']).astype(NP[d_of[k]]))
+            for k, v in w['ops'].items()}
+
+
+def judge_array(cfg: Cfg, ops, c1, c2, via_convert=False):
+    """every ELEMENT of the result is judged by the scalar oracle for its own operands; dims of the result = union
+    → list of (key, what, extra)"""
+    res = run_kernel_arrays(cfg, ops, via_convert)
+    pre = 'C05:convert-' if via_convert else 'C05:'
+    if isinstance(res, str):
+        return [(f'{pre}{cfg.geom}-raises', f'raised {res} on array-shaped operands', {})]
+    rdims, rsizes, vals, dtype, unit_ok = res
+    want = {}
+    for k in ('tof', 'L1', 'L2', 'E'):
+        for dname, n in zip(ops[k][0], ops[k][1].shape):
+            want[dname] = n
+    if rsizes != want:
+        return [(f'{pre}{cfg.geom}-shape', f'result sizes {rsizes}, expected the union of the operand dims {want}', {})]
+    out, seen = [], set()
+    for idx, c in array_elements(cfg, ops, c1, c2, rdims, rsizes):
+        v = float(vals[tuple(idx[d] for d in rdims)]) if rdims else float(vals)
+        for k, what, ex in judge(cfg, c, v, dtype, unit_ok):
+            keep = k == 'C05:f32-constant-underflow' or k.startswith('C05:mixed-precision:')
+            k = k if (keep or not via_convert) else k.replace('C05:', 'C05:convert-')
+            if k not in seen:      # one witness element per distinct key
+                seen.add(k)
+                out.append((k, f'element {idx} of an array evaluation (t = {float(c["t"])!r}): ' + what, dict(ex, index=idx)))
+    return out
+
+
+def _oracle_arrays(ctx, n):
+    rng = ctx.rng
+    for _ in range(n):
+        cfg = random_cfg(rng, allow_int=True, ctx=ctx)
+        layout, order, position, ops, c1, c2 = gen_array_case(rng, cfg)
+        via_convert = rng.random() < 0.3
+        ctx.count(f'oracle-array:{layout}:{order}:{position}' + (':convert' if via_convert else ''))
+        ctx.case(('oracle-array', cfg.key(), layout, order, position, via_convert,
+                  tuple(bits(x) for x in np.asarray(ops['tof'][1], dtype=np.float64).ravel())), True)
+        for key, what, ex in judge_array(cfg, ops, c1, c2, via_convert):
+            ctx.violation(key, what, dict(array_witness(cfg, layout, order, position, ops, via_convert), **ex))
+
+
 def oracle(ctx, deep):
     getcontext().prec = 60
     _oracle_corpus(ctx)
@@ -779,10 +1015,12 @@ def oracle(ctx, deep):
         _oracle_kernels(ctx, 400, 30)
         _oracle_ladders(ctx, 600)
         _oracle_convert(ctx, 150)
+        _oracle_arrays(ctx, 600)
     else:
         _oracle_kernels(ctx, ctx.n(250, 5000), 30)
         _oracle_ladders(ctx, ctx.n(600, 14000))
         _oracle_convert(ctx, ctx.n(150, 3000))
+        _oracle_arrays(ctx, ctx.n(600, 12000))
 
 
 # ---- replay -----------------------------------------------------------------------------------
@@ -794,6 +1032,13 @@ def replay(ctx, payload):
     if 'geom' not in w:
         print('no replayable witness in', key)
         return False
+    if w.get('op') == 'array':
+        cfg = Cfg.from_dict(w)
+        found = judge_array(cfg, ops_from_witness(cfg, w), kernel_const(cfg.uE, cfg.ut, cfg.u1), kernel_const(cfg.uE, cfg.ut, cfg.u2),
+                            w.get('via_convert', False))
+        for k, what, _ in found:
+            print(k, '-', what)
+        return any(k == key for k, _, _ in found)
     cfg, c = case_from_sample(w)
     if w.get('via') == 'convert':
         import scipp as sc
@@ -827,4 +1072,5 @@ def replay(ctx, payload):
         found = judge(cfg, c, float(vals[0]), dtype, unit_ok)
     for k, what, _ in found:
         print(k, '-', what)
-    return bool(found)
+    norm = lambda k: k.replace('C05:convert-', 'C05:')  # noqa: E731
+    return any(norm(k) == norm(key) for k, _, _ in found)
